@@ -533,6 +533,29 @@ def run(tier):
                  % (rel(g.short_loc(c_)), g.text(c_)[:60], rel(g.short_loc(t_))))
     else:
         rep.ok("createProcess does not close the caller's descriptors on the paths where it throws")
+    # ------------------------------------------- R9 HANDLER-LIFETIME: a handler is not destroyed while the dispatcher may still call it
+    # treatAction copies the handler pointers out of callBacks under callbacksAccess and calls them after the guard is gone; removeHandler
+    # (called by ~ProcessManager in another thread) deletes the pointee: the two are only compatible if the copy shares ownership
+    smf = load_functions(dsm)
+    ta = [f for f in smf if f.qname.split("(")[0] == "tfel::system::SignalManager::treatAction" and f.parent is None]
+    rh = [f for f in smf if f.qname.split("(")[0] == "tfel::system::SignalManager::removeHandler" and f.parent is None]
+    if len(ta) != 1 or not rh:
+        raise AnalysisBroken("SignalManager::treatAction / removeHandler not found")
+    t_ = ta[0]
+    calls_exec = [s_ for s_, n in t_.stmts.items() if n["k"] == "CXXMemberCallExpr" and (n.get("callee") or "").endswith("SignalHandler::execute")]
+    guards_top = [d_ for n in t_.stmts.values() if n["k"] == "DeclStmt" for d_ in n["decls"] if re.search(r"(lock_guard|unique_lock|scoped_lock)<", d_.get("type") or "") or
+                  (d_.get("cls") or "").endswith("CallbacksAccessGuard")]
+    deletes = [s_ for g_ in rh for s_, n in g_.stmts.items() if n["k"] == "CXXDeleteExpr"]
+    raw = any("SignalHandler *" in (n.get("t") or "") for n in t_.stmts.values())
+    rep.count("handler invocations of the dispatcher", len(calls_exec))
+    if calls_exec and not guards_top and deletes and raw:
+        rep.fail("HANDLER-LIFETIME@tfel::system::SignalManager::treatAction", "%s: SignalManager::treatAction calls the handlers through raw pointers copied out of callBacks, "
+                 "after callbacksAccess has been released, while removeHandler (%s) deletes the pointee: a SIGCHLD dispatched on one thread while another "
+                 "worker destroys its ProcessManager calls a freed handler bound to a destroyed manager (tfel-check -j N crashes or hangs on checks that all pass)"
+                 % (rel(t_.short_loc(calls_exec[0])), rel(rh[0].short_loc(deletes[0]))))
+    else:
+        rep.ok("the dispatcher does not call handlers that another thread may have deleted")
+    rep.floor("handler invocations of the dispatcher", 1)
     rep.floor("callers handing descriptors to createProcess", 2)
     rep.floor("acquisitions of a handler mutex outside the handlers", 3)
     rep.floor("waitpid call sites", 3)
